@@ -46,7 +46,10 @@ def new_executor(ctx, prog, mode=None, contracts=None, merge_fns=(), unwind=40):
 class Res:
     """accumulates the result of one case"""
 
+    current = None     # the Res of the case being run in this worker (lets the runner keep partial results when a case is cut short)
+
     def __init__(self, case_id):
+        Res.current = self
         self.d = {"case": case_id, "vcs": 0, "discharged": 0, "paths": 0, "violations": [], "inconclusive": [],
                   "samples": [], "distinct": [], "fns": set(), "models": set(), "solver_time": 0.0, "stats": {}}
 
@@ -68,6 +71,8 @@ class Res:
             d["distinct"].append(name)
         if r.status == "unsat":
             d["discharged"] += 1
+            if not isinstance(goal, bool):
+                self.cross(ctx, name, constraints, goal)
         elif r.status == "sat":
             vals = {}
             for k, t in inputs.items():
@@ -79,6 +84,46 @@ class Res:
         else:
             d["inconclusive"].append("solver unknown/timeout on VC %s (%.1fs)" % (name, r.time))
         return r
+
+    def cross(self, ctx, name, constraints, goal):
+        """second-solver pass: a deterministic sample of the VCs z3 5.x (API) decided unsat is dumped as SMT-LIB2 and re-decided by
+        cvc5 and by the system z3 4.8 binary; 'sat' from either is a disagreement (inconclusive, never silently ignored);
+        unknown/timeout/(error is counted but proves nothing either way"""
+        import os, zlib, subprocess
+        n = int(os.environ.get("VERIF_CROSS", "12" if ctx.tier == "thorough" else "60"))
+        if n <= 0 or zlib.crc32(name.encode()) % n != 0:
+            return
+        st = self.d["stats"]
+        st["cross_sampled"] = st.get("cross_sampled", 0) + 1
+        d = os.path.join("/verif/build/smt", ctx.pid)
+        os.makedirs(d, exist_ok=True)
+        path = os.path.join(d, "x%08x-%d.smt2" % (zlib.crc32(name.encode()), os.getpid()))
+        with open(path, "w") as f:
+            f.write(smtlib(constraints, goal) + "\n")   # Solver.to_smt2 ends with (check-sat)
+        keep = False
+        for tag, cmd in (("cvc5", ["cvc5", "--lang", "smt2", "--tlimit=4000", path]), ("z3old", ["/usr/bin/z3", "-T:4", path])):
+            try:
+                out = subprocess.run(cmd, capture_output=True, text=True, timeout=10).stdout
+            except Exception:
+                out = "timeout"
+            lines = [l.strip() for l in out.splitlines() if l.strip()]
+            if any(l.startswith("(error") for l in lines):
+                verdict = "error"
+            elif "unsat" in lines:
+                verdict = "unsat"
+            elif "sat" in lines:
+                verdict = "sat"
+            else:
+                verdict = "unknown"
+            st["cross_%s_%s" % (tag, verdict)] = st.get("cross_%s_%s" % (tag, verdict), 0) + 1
+            if verdict == "sat":
+                keep = True
+                self.d["inconclusive"].append("solver disagreement on VC %s: z3 %s says unsat, %s says sat (%s)" % (name, z3.get_version_string(), tag, path))
+        if not keep:
+            try:
+                os.remove(path)
+            except OSError:
+                pass
 
     def witness(self, ctx, name, constraints, assignment):
         """reachability witness: the constraints must be satisfiable for the given concrete inputs"""
@@ -109,6 +154,8 @@ class Res:
 
     def done(self):
         d = self.d
+        if isinstance(d["fns"], list):
+            return d
         d["fns"] = sorted(d["fns"])
         d["models"] = sorted(BI.USED)
         return d
